@@ -13,7 +13,7 @@ This module defines a class for handling Unicode subsets with less usage of memo
 import sys
 import warnings
 from collections import defaultdict
-from collections.abc import Callable, Iterable, Iterator, MutableSet
+from collections.abc import Callable, Iterable, Iterator, MutableSet, Set as AbstractSet
 from functools import wraps
 from sys import maxunicode
 from types import ModuleType
@@ -280,6 +280,8 @@ class UnicodeSubset(MutableSet[CodePoint]):
             return NotImplemented
         elif isinstance(other, UnicodeSubset):
             return self._codepoints == other._codepoints
+        elif isinstance(other, AbstractSet):
+            return len(self) == len(other) and all(cp in other for cp in self)
         else:
             return self._codepoints == other
 
